@@ -586,9 +586,15 @@ func cmdRun(args []string) int {
 			"solver":                        "z3 (incremental, one process per worker); unknown/timeouts are reported as inconclusive",
 		},
 	}
-	os.MkdirAll(filepath.Join(verifDir, "evidence"), 0o755)
+	// VCHECK_EVIDENCE_DIR: used when a check is run against a deliberately altered tree
+	// (seeded changes), so that the committed evidence keeps describing the unchanged tree
+	evDir := filepath.Join(verifDir, "evidence")
+	if d := os.Getenv("VCHECK_EVIDENCE_DIR"); d != "" {
+		evDir = d
+	}
+	os.MkdirAll(evDir, 0o755)
 	eb, _ := json.MarshalIndent(ev, "", " ")
-	os.WriteFile(filepath.Join(verifDir, "evidence", prop+".json"), eb, 0o644)
+	os.WriteFile(filepath.Join(evDir, prop+".json"), eb, 0o644)
 	if broken {
 		fmt.Fprintln(os.Stderr, "check is BROKEN (load failure or vacuous harness)")
 		return 3
